@@ -32,6 +32,8 @@ AllBases   == {BaseLen(h, 123, cz, fz) : h \in {-1, 0, 6423}, cz \in BOOLEAN, fz
 FewBases   == {BaseLen(6423, 123, TRUE, TRUE), BaseLen(-1, 0, TRUE, TRUE), BaseLen(0, 0, FALSE, FALSE)}
 BaseVariants == IF ManyBases THEN AllBases ELSE FewBases
 
+KCosts == IF ManyBases THEN {0, 1, 5} ELSE {0, 5}     \* ManyBases doubles as 'many cost vectors' in keys mode
+VCosts == IF ManyBases THEN {0, 1, 3} ELSE {0, 3}
 K1 == [name |-> "k1", chunks |-> 1, perm |-> 7]
 K2 == [name |-> "k1", chunks |-> 2, perm |-> 5]
 K3 == [name |-> "k2", chunks |-> 1, perm |-> 3]
@@ -46,7 +48,7 @@ Init ==
   /\ IF Mode = "size"
        THEN \E c \in Counts, a \in AuthKinds, b \in BaseVariants :
               shape = [sizes |-> Expand(c, 1), auth |-> a, base |-> b]
-       ELSE \E n \in 0..MaxActions : \E acts \in [1..n -> KeyActions] : \E kc \in {0, 1, 5}, vc \in {0, 1, 3}, bc \in 1..2 :
+       ELSE \E n \in 0..MaxActions : \E acts \in [1..n -> KeyActions] : \E kc \in KCosts, vc \in VCosts, bc \in 1..2 :
               shape = [actions |-> acts, cost |-> <<kc, vc>>, balChunks |-> bc]
 Next == ~go /\ go' = TRUE /\ UNCHANGED shape
 Spec == Init /\ [][Next]_<<shape, go>>
